@@ -27,7 +27,7 @@ func init() {
 				"name every result type or end in a panicking default.",
 			NotCovered: "JSON well-formedness of arbitrary field contents (encoding/json trusted); atomicity of O_APPEND writes in the kernel.",
 			Rules: map[string]string{"C15-R1": "recordQueryInfo gates and entry provenance", "C15-R2": "sole callers of log/billing sinks; record only after the write",
-				"C15-R3": "single append write from the pooled buffer", "C15-R4": "result switches exhaustive"},
+				"C15-R3": "single append write from the pooled buffer", "C15-R4": "result switches exhaustive", "C15-R5": "every field of the entry is written"},
 		}})
 }
 
@@ -245,6 +245,26 @@ func runC15(c *an.Ctx) {
 			c.Bad("C15-R3", "FileSystem.Write buffer release", putInstr.Pos(), "the pooled entry buffer is used at %s after it was returned to the pool: a concurrent writer re-encodes into it while it is being written", c.Pos(use.Pos()))
 		} else {
 			c.Ok("C15-R3", "FileSystem.Write buffer release", putInstr.Pos(), "no use of the buffer after Put")
+		}
+	}
+
+	// ---- R5: every field of the entry reaches the JSON line
+	c.Floor("C15-R5", 10)
+	if fn := c.Fn("querylog.(*FileSystem).Write"); fn != nil {
+		read := map[string]bool{}
+		an.Instrs(fn, func(in ssa.Instruction) {
+			if fa, ok := in.(*ssa.FieldAddr); ok {
+				if typ, f, _, ok := an.FieldOf(fa); ok && typ == "querylog.Entry" {
+					read[f] = true
+				}
+			}
+		})
+		if t := c.TypeByString("querylog.Entry"); t != nil {
+			st := t.Underlying().(*types.Struct)
+			for i := 0; i < st.NumFields(); i++ {
+				f := st.Field(i).Name()
+				c.Check(read[f], "C15-R5", "querylog.Entry."+f, st.Field(i).Pos(), "read by FileSystem.Write", "the log writer never reads this field of the entry: the line does not describe that aspect of its request")
+			}
 		}
 	}
 
